@@ -224,7 +224,14 @@ class SimMDP(AbstractEnv):
         return {}
 
     def transition_info(self, state: SimState, action, next_state: SimState) -> dict:
-        return {}
+        # echoes the action the environment RECEIVED, so that an action wrapper that forgets to map the
+        # action on the info path is visible (C13: "for dynamics, reward and info alike")
+        a, _ = self._decode(action)
+        if self.kind in ("box", "boxscalar"):
+            echo = jnp.sum(jnp.asarray(action, dtype=float))
+        else:
+            echo = a.astype(float)
+        return {"action_echo": echo, "from": state.s, "to": next_state.s}
 
     def default_renderer(self):
         raise NotImplementedError
